@@ -153,6 +153,54 @@ pub fn run(run: &mut Run) -> PResult {
         }
     }
     run.generator("0, all single bits, all two-bit values", "exhaustive", Some(n), n, n, "64 single bits (52 cards, 12 overflow), 2,016 pairs, empty, full");
+    if !run.is_twin() {
+        // call-order independence, set -> word: every ordered pair of {0, single bits, a spread of two-bit
+        // values}, and every triple (card bit, x, x)
+        let mut items: Vec<u64> = vec![0, u64::MAX];
+        for a in 0..64 {
+            items.push(1u64 << a);
+        }
+        for (i, x) in structured.iter().enumerate() {
+            if x.count_ones() == 2 && i % 9 == 0 {
+                items.push(*x);
+            }
+        }
+        let hit = engine::ordered_pairs(&items, &|a| { std::hint::black_box(CKCNumber::from_binary_card(*a)); }, &|b| set_clause(*b));
+        let np = (items.len() * items.len()) as u64;
+        run.generator("ordered pairs of sets converted back to back", "exhaustive (histories of length 2)", Some(np), np, np, "0, all ones, 64 single bits, every ninth two-bit value");
+        if let Some((a, b, m)) = hit {
+            return run.violation("C14.sequence", &format!("{:#x} ; {:#x}", items[a], items[b]), json!({"sets": [format!("{:#x}", items[a]), format!("{:#x}", items[b])]}), &format!("after converting {:#x}: {}", items[a], m));
+        }
+        let mut nt = 0u64;
+        for c in 0..52u32 {
+            for x in structured.iter().filter(|x| x.count_ones() != 1 || x.trailing_zeros() >= 52) {
+                nt += 1;
+                std::hint::black_box(CKCNumber::from_binary_card(1u64 << c));
+                let r = set_clause(*x).and_then(|_| set_clause(*x));
+                if let Err(m) = r {
+                    run.generator("triples: a card bit, then a non-card set twice", "exhaustive (histories of length 3)", None, nt, nt, "");
+                    return run.violation("C14.sequence", &format!("{:#x} ; {:#x} ; {:#x}", 1u64 << c, x, x), json!({"sets": [format!("{:#x}", 1u64 << c), format!("{:#x}", x), format!("{:#x}", x)]}), &format!("after converting {:#x} and then {:#x}: {}", 1u64 << c, x, m));
+                }
+            }
+        }
+        run.generator("triples: a card bit, then a non-card set twice", "exhaustive (histories of length 3)", Some(nt), nt, nt, "52 card bits x (0, overflow bits, all two-bit values, ...)");
+        // word -> set: ordered pairs over cards and near-miss words
+        let mut words: Vec<u32> = card::DECK.to_vec();
+        words.push(0);
+        for c in card::DECK {
+            for m in [1u32, 2, 4, 7] {
+                words.push(c | (m << 29));
+            }
+            words.push(c ^ 1);
+            words.push(c ^ 0x1000);
+        }
+        let hit = engine::ordered_pairs(&words, &|a| { std::hint::black_box(BinaryCard::from_ckc(*a)); }, &|b| word_clause(*b));
+        let np = (words.len() * words.len()) as u64;
+        run.generator("ordered pairs of words converted back to back", "exhaustive (histories of length 2)", Some(np), np, np, "52 cards, blank, flagged cards, one-bit corruptions");
+        if let Some((a, b, m)) = hit {
+            return run.violation("C14.sequence_words", &format!("{} ; {}", hex(words[a]), hex(words[b])), json!({"words": [hex(words[a]), hex(words[b])]}), &format!("after converting {}: {}", hex(words[a]), m));
+        }
+    }
     run.sample(json!({"set": "0x8000000000000", "card": card::render(CKCNumber::from_binary_card(1 << 51))}));
     run.sample(json!({"set": "0x3", "card": card::render(CKCNumber::from_binary_card(3)), "note": "two bits: blank"}));
     let cases = (if run.tier == Tier::Thorough { 2_000_000 } else { 200_000 }) / if run.is_twin() { 4 } else { 1 };
@@ -198,6 +246,20 @@ pub fn check_case(clause: &str, case: &Value) -> Result<(), String> {
         "C14.constants" => constant_clauses().map_err(|(_, m)| m),
         "C14.word_to_bit" => word_clause(engine::parse_word(&case["word"])?),
         "C14.bit_to_word" => set_clause(parse_set(&case["set"])?),
+        "C14.sequence" => {
+            std::hint::black_box(CKCNumber::from_binary_card(1 << 20));
+            for (i, s) in case["sets"].as_array().ok_or("sets")?.iter().enumerate() {
+                set_clause(parse_set(s)?).map_err(|m| format!("call {}: {}", i + 1, m))?;
+            }
+            Ok(())
+        }
+        "C14.sequence_words" => {
+            std::hint::black_box(BinaryCard::from_ckc(card::DECK[20]));
+            for (i, w) in engine::parse_words(&case["words"])?.iter().enumerate() {
+                word_clause(*w).map_err(|m| format!("call {}: {}", i + 1, m))?;
+            }
+            Ok(())
+        }
         _ => Err(format!("unknown clause {}", clause)),
     }
 }
